@@ -138,8 +138,12 @@ CHECKS = {
        "has equal state and events on original-after-close and restored, and so has every continuation; restore is total, QoS0 and "
        "already-used identifiers are skipped; restore_packets keeps the ownership invariant OWN (see C08) on any object that has it "
        "(C16_restore_keeps_ownership) and every later call keeps it, so restored identifiers stay in use until their exchange completes. "
-       "PARTIAL: that the restored object's later behaviour EQUALS the original's is decided by the paired-run monitor (original vs "
-       "restored implementation object, events + full digest) and the store-order stage, not a single theorem.",
+       "THE EXPORT OF A REACHABLE STATE IS THE SESSION (C16_history_session_invariant, C16_history_restore_equal): the structural "
+       "invariant that the restore theorems assume follows from three invariants of every call — OWN, SUP (in a persistent session every "
+       "awaited identifier has its packet in the store) and ENT (only QoS 1/2 PUBLISH and PUBREL are stored) — so in every state of every "
+       "history of a fresh object in which the session is persistent and the application holds no identifier, the export restored into a "
+       "fresh object rebuilds an EQUAL session state, and the reconnect and every continuation are equal on both. The implementation is "
+       "judged by the paired-run monitor (original vs restored implementation object, events + full digest) and the store-order stage.",
   ref="DESIGN.md §3 C16",
   note=CONN_NOTE + " Paired cases use determinate versions (an export cannot be restored into an object of undetermined version).",
   technique="Coq proofs of restore (refinement to the set spec via C20) + state-equality/determinism + paired-run differential monitor on two implementation objects"),
